@@ -6,6 +6,8 @@ import (
 	"fmt"
 	"io"
 	"os"
+	"path/filepath"
+	"strings"
 	"sync"
 	"sync/atomic"
 
@@ -319,6 +321,32 @@ func C18(run *report.Run) {
 		if err := p.Store(ctx, "A", []byte("x")); err == nil {
 			if _, lerr := p.Load(ctx, "A"); lerr != nil {
 				acc.add(cfg, "C18", []explore.Finding{{Sig: "C18|fi|store-error-swallowed", What: "file: Store into a directory that does not exist reported success although nothing is loadable", Detail: lerr.Error()}}, []string{"backend file", "base path does not exist"})
+			}
+		}
+	}
+	// file backend in places where it cannot work: whatever the reason, a Store that reports success is loadable
+	{
+		notDir := filepath.Join(tmpBase, "regular-file")
+		os.WriteFile(notDir, []byte("x"), 0o644)
+		okDir, _ := os.MkdirTemp(tmpBase, "ok")
+		noAccess, _ := os.MkdirTemp(tmpBase, "noaccess")
+		os.Chmod(noAccess, 0)
+		defer os.Chmod(noAccess, 0o755)
+		long := strings.Repeat("A", 300)
+		for _, tc := range []struct{ what, base, name string }{
+			{"base path is a regular file", notDir, "A"},
+			{"base path lies below a regular file", filepath.Join(notDir, "sub"), "A"},
+			{"name of 300 characters (longer than a file name may be)", okDir, long},
+			{"directory without any permission (judged when that stops this process)", noAccess, "A"},
+		} {
+			p := file.NewPersistForPath(tc.base)
+			atomic.AddInt64(&st.faults, 1)
+			payload := []byte("payload")
+			if err := p.Store(ctx, tc.name, payload); err == nil {
+				got, lerr := p.Load(ctx, tc.name)
+				if lerr != nil || !bytes.Equal(got, payload) {
+					acc.add(cfg, "C18", []explore.Finding{{Sig: "C18|fi|store-reports-success-where-nothing-can-be-stored", What: "file: Store reported success although the name is not loadable afterwards (an error of the file system was not returned to the caller)", Detail: fmt.Sprintf("%s: Store returned nil, Load: %v", tc.what, lerr)}}, []string{"backend file", tc.what})
+				}
 			}
 		}
 	}
